@@ -31,6 +31,10 @@ ASSUMPTIONS = [
 
 
 MUTANTS = [
+    ("NUNIQ list built from whatever levels the dictionary holds",
+     "AegeanTools/regions.py",
+     "        for d in range(1, self.maxdepth+1):\n            pd.extend(",
+     "        for d in self.pixeldict:\n            pd.extend(", "C12-R1"),
     ("empty pixel list keeps the template's table", "AegeanTools/regions.py",
      "        hdulist[1] = tbhdu\n",
      "        if len(self._uniq()) > 0:\n            hdulist[1] = tbhdu\n",
